@@ -1,5 +1,5 @@
 (** * C16 — decode / encode of tile matrix set documents: witnesses about the code as it stands
-      (F6b, F6c, F6d) and the built-in documents by computation *)
+      (F6b, F6c) and the built-in documents by computation *)
 From Coq Require Import ZArith QArith String Ascii List Bool Lia.
 From Texel Require Import Tms.Json Tms.Model.
 From Texel.Gen Require Import ConstsGen TmsData.
@@ -50,8 +50,8 @@ Proof.
   repeat split; vm_compute; reflexivity.
 Qed.
 
-(** F6d: empty arrays under omitempty members decode to empty non-nil slices, are not printed, and come back nil:
-    the two values differ (reflect.DeepEqual), their encodings do not *)
+(** empty arrays under omitempty members decode to empty non-nil slices, are not printed, and come back nil:
+    the two values differ only in nil vs. empty, their encodings do not *)
 Lemma empty_slice_not_stable : exists t t' m m',
   decodeTMS doc_empty_kw = Ok t /\ decodeTMS (encodeTMS t) = Ok t' /\
   the_tm t = Some m /\ the_tm t' = Some m' /\
